@@ -104,7 +104,9 @@ FValid(c) ==
   /\ (c.elem \in {"RT1", "N1", "TH"} => c.cell \in {"triangle", "tetrahedron"})
   /\ (c.term \in {"flux", "avgflux"} => c.elem \in {"P1", "P2", "DG1", "vP1"})
   /\ (c.term \in {"xw", "nload", "njump"} => c.elem \in {"P1", "P2", "DG1", "DG0"})
-  /\ (c.cell = "prism" => c.elem \in {"P1", "DG0"} /\ c.measure = "ds" /\ c.rule = "exact")
+  /\ (c.cell = "prism" => c.elem \in {"P1", "DG0"} /\ c.measure = "ds" /\ c.rule = "exact"
+                          \* ffcx has no reference facet normals for prisms ("Unhandled cell types prism": a rejection)
+                          /\ c.term \in {"mass", "coef", "fload", "area"})
   /\ (c.cell = "interval" => c.rule = "exact")
   /\ (c.rule = "vertex" => c.cell \in {"triangle", "tetrahedron", "quadrilateral"} /\ c.measure # "dP")
   /\ (c.cell = "hexahedron" => c.elem \in {"P1", "DG0", "DG1"})
@@ -115,8 +117,8 @@ ValidFCases == {c \in FCase : FValid(c)}
 ---------------------------------------------------------------------------
 (* expressions evaluated at reference points (C04) *)
 ETerms == {"u", "gradu", "fgradu", "symgrad", "x", "n", "f", "gradf", "cgradf", "hessf", "absf", "fu", "outer",
-           "elim", "celim", "fg", "un"}
-ERank(t) == IF t \in {"u", "gradu", "fgradu", "symgrad", "fu", "un"} THEN 1 ELSE 0
+           "elim", "celim", "fg", "un", "condu"}
+ERank(t) == IF t \in {"u", "gradu", "fgradu", "symgrad", "fu", "un", "condu"} THEN 1 ELSE 0
 EElems == {"P1", "P2", "DG1", "vP1", "vP2", "N1", "RT1", "symP1", "TH"}
 ECase == [cell : Cells, elem : EElems, term : ETerms, pts : {"cell", "facet", "interp"}, geom : {"affine", "nonaffine", "manifold"}]
 EValid(c) ==
@@ -128,7 +130,7 @@ EValid(c) ==
   /\ (c.term \in {"n", "un"} => c.pts = "facet")
   /\ (c.term = "n" => c.elem = "P1")
   /\ (c.pts = "facet" => c.term \in {"n", "un", "u", "gradu", "f", "fu", "x", "gradf"})
-  /\ (c.term \in {"elim", "celim", "fg", "un"} => c.elem \in {"P1", "P2", "DG1"})
+  /\ (c.term \in {"elim", "celim", "fg", "un", "condu"} => c.elem \in {"P1", "P2", "DG1"})
   /\ (c.pts = "facet" => c.cell # "interval")
   /\ (c.elem = "symP1" => Tdim(c.cell) = 2 /\ c.term \in {"u", "f"})
   /\ (c.geom = "nonaffine" => c.cell \in {"quadrilateral", "hexahedron"} /\ ~(c.elem \in {"N1", "RT1"}))
